@@ -106,6 +106,7 @@ HardLinksUnder(r, M) == LET H == Here(r)  at == [i \in H |-> At(r, i)] IN
 \* Named deviation DevSymlinkLinksSplit: the image is not what the property asks for (clause HardLinks false) but exactly what
 \* __populate_fs as pinned produces (LiteralLinkTypes: names of a hard-linked symlink are never looked up in hdlinks, each gets
 \* an inode of its own with link count 1).  Such a line is reported under the name of the deviation instead of the clause.
+\* Repaired by fix f519e89c; the name is no longer a known finding, so a line that shows it is a VIOLATION.
 Failed(r) == LET cl == Clauses(r)
                  rd == IF r.rdump_run = 1 THEN RdClauses(r) ELSE [RdNames |-> TRUE]
                  f == {c \in DOMAIN cl : ~cl[c]} \cup {c \in DOMAIN rd : ~rd[c]}
